@@ -158,14 +158,6 @@ def check(case):
         m = build.model(case)
     except build.Rejected as e:
         return Result(skipped='rejected: ' + str(e)[:50])
-    except AssertionError:
-        import traceback, sys
-        tb = traceback.extract_tb(sys.exc_info()[2])
-        if tb[-1].name == 'add':
-            # a closed object (or a duplicate) joining the same earlier end twice makes the
-            # program stop with an assertion: no model to judge, reported by C20
-            return Result(skipped='crash: Connected_Geobj.add assertion (judged by C20)')
-        raise
     # reference objects: segment end points from the model for tapered wires only
     robjs = build.ref_objs(case, m)
     ground = build.has_ground(case)
